@@ -322,6 +322,10 @@ def set_theory_axioms(elt_ty=T.NAME):
     out.append(z3.ForAll([q, a], z3.Implies(z3.Or(set_card(SymVal(st, q)) == 0, set_card(A) == 0),
                                             set_card(inter(q, a)) == 0),
                          patterns=[inter(q, a).term]))
+    # a & b and b & a have the same members, hence the same cardinality
+    out.append(z3.ForAll([a, b], set_card(inter(a, b)) == set_card(inter(b, a)),
+                         patterns=[inter(a, b).term]))
+    # list(s): an enumeration has as many entries as the set has members (prims.enumeration_of)
     return out
 
 
@@ -694,3 +698,39 @@ STORED_OK_DEF = define_predicate(
     "sorted_strict(wr)")
 
 H5_WRITERS.add('cell_type_mapper.type_assignment.marker_cache_v2.create_marker_cache_from_specified_markers')
+
+
+# listed(ML, g): gene g occurs in some list of the marker table ML
+LISTED_DEF = define_predicate('listed', ['ML', 'g'], ['Dict[Name,List[Name]]', 'Name'],
+                              "any(g in ML[k2] for k2 in ML)")
+
+
+# kept_ok(lst, Qn, kept): `kept` enumerates, without repetition, the genes of `lst` that are in the
+# query gene list Qn  (what create_marker_cache_from_specified_markers stores for a group)
+KEPT_OK_DEF = define_predicate(
+    'kept_ok', ['lst', 'Qn', 'kept'], ['List[Name]', 'List[Name]', 'List[Name]'],
+    "dupfree(kept) and all(g in lst and g in Qn for g in kept) and all(g in kept for g in lst if g in Qn)")
+
+
+# ---- reading a marker cache back (bounded layer of serialize_markers; native only) ---------------------
+def _h5_names_native(path):
+    import h5py
+    import json
+    with h5py.File(path, 'r') as f:
+        return json.loads(f['reference_gene_names'][()].decode('utf-8'))
+
+
+def _h5_ref_native(path, key):
+    import h5py
+    with h5py.File(path, 'r') as f:
+        return [int(i) for i in f[key]['reference'][()]]
+
+
+def _native_only(name):
+    def h(ev, state, node):
+        raise Unsupported(f"{name}() is a native-only specification function (bounded contracts)")
+    return h
+
+
+prims.spec_function('h5_names', native=_h5_names_native)(_native_only('h5_names'))
+prims.spec_function('h5_ref', native=_h5_ref_native)(_native_only('h5_ref'))
